@@ -180,13 +180,14 @@ def grep_gate():
         for m in FORBIDDEN.finditer(stripped):
             bad.append('%s: %s' % (os.path.relpath(f, COQ), m.group(0)))
         stack = []      # ('S'|'M', name)
-        for m in re.finditer(r'(?m)^\s*(?:(?:Local|Global|#\[[^\]]*\])\s+)*(Section|Module\s+Type|Module|End|Variables?|Hypothes[ie]s|Context)\b\s*([\w\']*)', stripped):
+        for sent in re.split(r'\.(?:\s+|$)', stripped):      # vernacular sentences (several may share a line)
+            m = re.match(r'\s*(?:(?:Local|Global|Polymorphic|#\[[^\]]*\])\s+)*(Section|Module\s+Type|Module|End|Variables?|Hypothes[ie]s|Context)\b\s*([\w\']*)', sent)
+            if not m: continue
             k, name = m.group(1), m.group(2)
             if k == 'Section': stack.append(('S', name))
             elif k.startswith('Module'):
                 # `Module X := Y.` does not open a scope
-                rest = stripped[m.end():m.end() + 200].split('.')[0]
-                if ':=' not in rest: stack.append(('M', name))
+                if ':=' not in sent: stack.append(('M', name))
             elif k == 'End':
                 for j in range(len(stack) - 1, -1, -1):
                     if stack[j][1] == name: del stack[j:]; break
